@@ -19,8 +19,8 @@ GEN = ["LoaderSoundX", "EmitProg"]
 # ---- leg M/G profiles (generator MCAmlNsX): Quick = small scope enumerated in seconds, Full = thorough tier
 cfg("MCAmlNsXFieldsQuick", GEN, "PreFields", "Fresh4", 1, 1, 1, ["Device", "Scope", "DataRegion", "Field", "IndexField", "BankField"], ["abs", "caret"], ["const", "bufop"], [], 0)
 cfg("MCAmlNsXFieldsFull", GEN, "PreFields", "Fresh4", 2, 1, 1, ["Device", "Scope", "DataRegion", "Field", "IndexField", "BankField"], ["abs"], ["const"], [], 0)
-cfg("MCAmlNsXDeclsQuick", GEN, "PreDecls", "Fresh2", 2, 1, 1, ["Alias", "External", "CreateField", "Name"], ["abs"], ["pkgref", "pkgmeth", "bufname", "bufcall"], [], 0)
-cfg("MCAmlNsXDeclsFull", GEN, "PreDecls", "Fresh4", 3, 2, 2, ["Alias", "External", "CreateField", "Name", "Scope", "Device", "Method0"], ["abs", "caret"], ["const", "pkgref", "pkgmeth", "bufname", "bufcall", "bufop"], ["store", "call"], 1)
+cfg("MCAmlNsXDeclsQuick", GEN, "PreDecls", "Fresh3", 1, 1, 1, ["Alias", "External", "CreateField", "Name", "Scope"], ["abs", "caret"], ["const", "pkgref", "pkgmeth", "bufname", "bufcall", "bufop"], [], 0)
+cfg("MCAmlNsXDeclsFull", GEN, "PreDecls", "Fresh3", 2, 1, 2, ["Alias", "External", "CreateField", "Name", "Scope"], ["abs", "caret"], ["const", "pkgref", "pkgmeth", "bufname", "bufcall", "bufop"], [], 0)
 cfg("MCAmlNsXStmtsQuick", GEN, "PreBody", "Fresh2", 1, 1, 1, [], ["abs"], [], ["sync", "notify", "match", "call", "calloplast", "cfield", "store", "pkg", "varpkg", "buf"], 1)
 cfg("MCAmlNsXStmtsFull", GEN, "PreBody", "Fresh2", 2, 1, 1, [], ["abs"], [], ["sync", "notify", "match", "call", "calloplast", "cfield", "store", "pkg", "varpkg", "buf"], 2)
 cfg("MCAmlNsXFlowQuick", GEN, "PreBody", "Fresh2", 4, 1, 1, [], [], [], ["if", "else", "while", "notify"], 4)
@@ -28,7 +28,7 @@ cfg("MCAmlNsXFlowFull", GEN, "PreBody", "Fresh2", 7, 1, 1, [], [], [], ["if", "e
 
 # ---- design model of the operand collection (MCAmlBodyX): BodyRefines on straight-line bodies; design mutants and the open trigger must be rejected
 BODY = ["call", "callop", "calloplast", "store", "notify", "sync", "match"]
-cfg("MCAmlBodyXQuick", ["BodyRefines"], "PreBody", "Fresh2", 2, 1, 1, [], [], [], ["call", "calloplast", "store", "notify", "match"], 2, emit=False)
+cfg("MCAmlBodyXQuick", ["BodyRefines"], "PreBody", "Fresh2", 2, 1, 1, [], [], [], ["call", "calloplast", "store", "notify"], 2, emit=False)
 cfg("MCAmlBodyXFull", ["BodyRefines"], "PreBody", "Fresh2", 3, 1, 1, [], ["abs"], [], ["call", "calloplast", "store", "notify", "sync", "match"], 3, emit=False)
 for b in ["ConnectBeforeResolve", "NoParentSiblings", "ForwardOrder"]:
     cfg("MCAmlBodyXBug_" + b, ["BodyRefines"], "PreBody", "Fresh2", 2, 1, 1, [], [], [], ["call", "calloplast", "store"], 2, emit=False, bug=b)
